@@ -144,6 +144,8 @@ func (p *ClusterProp) Run(seed uint64, tier string, tr *core.Trace) (out *RunOut
 			countTxs(e, st)
 		case "restart":
 			stepErr = e.DoRestart(st)
+		case "join":
+			stepErr = e.DoJoin(st)
 		case "checks":
 			e.DoChecks(st)
 		case "boot":
